@@ -171,9 +171,9 @@ def optDecode (bs : Bytes) : Option OptVal :=
 
 /-! ### Option classes (§4.1, Figure 5) -/
 
-def optUriHost := 3
-def optObserve := 6
-def optOscore := 9
+abbrev optUriHost : Nat := 3
+abbrev optObserve : Nat := 6
+abbrev optOscore : Nat := 9
 
 /-- class U only: Uri-Host, Uri-Port, OSCORE, Hop-Limit (RFC 8768 §5), Proxy-Uri, Proxy-Scheme -/
 def classUOnly (n : Nat) : Bool := n = 3 || n = 7 || n = 9 || n = 16 || n = 35 || n = 39
